@@ -153,6 +153,34 @@ class InvertIf(ast.NodeTransformer):
         return node
 
 
+MIR = {ast.Eq: ast.Eq, ast.NotEq: ast.NotEq, ast.Lt: ast.Gt, ast.Gt: ast.Lt, ast.LtE: ast.GtE, ast.GtE: ast.LtE, ast.Is: ast.Is, ast.IsNot: ast.IsNot}
+
+
+class Yoda(ast.NodeTransformer):
+    """a OP b -> b MIRROR(OP) a for every single comparison (==, !=, <, <=, >, >=, is, is not)"""
+
+    def visit_Compare(self, node):
+        self.generic_visit(node)
+        if len(node.ops) == 1 and type(node.ops[0]) in MIR:
+            return ast.Compare(left=node.comparators[0], ops=[MIR[type(node.ops[0])]()], comparators=[node.left])
+        return node
+
+
+class MethodToFunction(ast.NodeTransformer):
+    """x.min() / x.max() / x.ravel() / x.reshape(s) -> np.min(x) / np.max(x) / np.ravel(x) / np.reshape(x, s) (all receivers in the
+    package are ndarrays at these sites; only in modules that import numpy as np)"""
+
+    def visit_Call(self, node):
+        self.generic_visit(node)
+        f = node.func
+        if isinstance(f, ast.Attribute) and f.attr in ("min", "max", "ravel", "reshape") and not node.keywords and \
+                not (isinstance(f.value, ast.Name) and f.value.id in ("np", "numpy")):
+            if f.attr in ("min", "max", "ravel") and node.args:
+                return node
+            return ast.Call(func=ast.Attribute(value=ast.Name(id="np", ctx=ast.Load()), attr=f.attr, ctx=ast.Load()), args=[f.value] + node.args, keywords=[])
+        return node
+
+
 def transformed(kind):
     root = pathlib.Path("/repo/verde")
     overlay = {}
@@ -170,6 +198,10 @@ def transformed(kind):
             tree = ast.fix_missing_locations(Commute().visit(tree))
         if kind == "invert-if":
             tree = ast.fix_missing_locations(InvertIf().visit(tree))
+        if kind == "yoda":
+            tree = ast.fix_missing_locations(Yoda().visit(tree))
+        if kind == "method-to-function" and any(isinstance(n, ast.Import) and any(a.name == "numpy" and a.asname == "np" for a in n.names) for n in tree.body):
+            tree = ast.fix_missing_locations(MethodToFunction().visit(tree))
         if kind == "hoist":
             tree = ast.fix_missing_locations(Hoist().visit(tree))
         if kind == "keywordize":
@@ -183,7 +215,7 @@ def transformed(kind):
 
 def main():
     bad = 0
-    for kind in ("format", "rename", "commute", "keywordize", "hoist", "invert-if"):
+    for kind in ("format", "rename", "commute", "keywordize", "hoist", "invert-if", "yoda", "method-to-function"):
         overlay = transformed(kind)
         for src in overlay.values():
             compile(src, "<variant>", "exec")
